@@ -26,6 +26,12 @@ FEAS_TOL = 1e-5          # OR-Tools VerifySolution tolerance used by aldy (SOLVE
 CLAUSES = ["first-optimal", "yield-feasible", "within-gap", "no-repeat", "monotone", "complete", "prod-exact", "abssum-exact"]
 
 
+# a witness' point is certified to satisfy every row within 1e-6; with objective coefficients up to ~10 on the error terms its objective
+# can therefore undercut the true optimum by a few 1e-6 (seen: HiGHS 5.494997 against the exact optimum 5.495).  The exhaustive table is
+# the authority for the generated models; a witness only counts against CBC beyond the resolution used for the recorded models (2e-5).
+WIT_TOL = 2e-5
+
+
 def close(a, b, extra=0.0):
     return abs(float(a) - float(b)) <= TOL_ABS + extra + TOL_REL * max(abs(float(a)), abs(float(b)))
 
@@ -773,7 +779,7 @@ def evaluate_enum(chk, cases, stream="enum", thorough=False, with_model=True):
                 chk.count(stream, f"resolved-{sv}")
                 if st not in ("optimal", "infeasible"):
                     chk.count(stream, f"{sv}-inconclusive-{st}")
-                elif st == "optimal" and (best is None or float(obj) < float(best) - TOL_ABS):
+                elif st == "optimal" and (best is None or float(obj) < float(best) - WIT_TOL):
                     # a certified point below the exhaustive optimum: the harness' own table would be wrong
                     chk.mismatch(f"exact-table-vs-{sv}", jc, None if best is None else float(best), [st, obj])
                 elif (best is None) != (st == "infeasible") or (best is not None and not close(obj, best)):
@@ -781,7 +787,7 @@ def evaluate_enum(chk, cases, stream="enum", thorough=False, with_model=True):
                     if len([x for x in chk.notes if x.startswith(f"[C05] witness {sv}")]) < 2:
                         chk.notes.append(f"[C05] witness {sv} disagrees with exhaustive enumeration (exact optimum {None if best is None else float(best)!r}, "
                                          f"{sv}: {st} {obj!r}) on {json.dumps(jc)[:600]}")
-                if im["yields"] and st == "optimal" and float(obj) < im["yields"][0][0] - TOL_ABS - TOL_REL * abs(float(obj)):
+                if im["yields"] and st == "optimal" and float(obj) < im["yields"][0][0] - WIT_TOL - TOL_REL * abs(float(obj)):
                     chk.fail("first-optimal", case_desc(c, stream), jc, f"{sv}: {obj!r} (certified feasible point)", f"CBC first yield: {im['yields'][0][0]!r}")
         if vals is None:
             continue
